@@ -580,17 +580,17 @@ def configs(tier):
         c["chunk-big"] = (dict(gens=(1, 3, 1000, 100000), warm=(0, 999), maxlen=5), 6, rel, 1)
         c["chunk-all"] = (dict(warm=(0, 999), maxlen=4), 5, rel, None)
         c["similar"] = (dict(gens=(1, 3), skips=(2,), big=(1,), shapes=((2, 3), ()), shape0=((3,),), maxgens=2,
-                             gendef=True, maxlen=5), 6, [("rel", 0.05, Ts) for Ts in Ts4], 2)
+                             gendef=True, maxlen=4), 5, [("rel", 0.05, Ts) for Ts in Ts4], 2)
         c["func"] = (dict(gens=(1, 3, 1000), skips=(2,), big=(1,), shapes=((2,),), warm=(0, 999), maxlen=5), 6,
                      [("relfunc", f, Ts) for Ts in Ts4 for f in (0.05, 0.23)], 2)
         c["zero-doppler"] = (dict(gens=(1, 3, 1000), skips=(2,), big=(1,), shapes=((2,),), warm=(0, 999), maxlen=4), 5,
                              [("rel", 0.0, Ts) for Ts in Ts4], None)
-        lat = dict(gens=(1, 3, 6, 1000), skips=(1, 2), big=(1,), shapes=((2,), ()), maxlen=5, lattice=True, warm=(0, 999))
-        c["lattice-q1"] = (dict(lat, L=4, fdq=1), 6, [(m, 0.25, Ts) for Ts in Ts4 for m in ("lat", "latfunc")], 2)
-        c["lattice-q2"] = (dict(lat, L=7, fdq=2), 6, [(m, 0.5, Ts) for Ts in Ts4 for m in ("lat", "latfunc")], 2)
-        c["lattice-q0"] = (dict(lat, L=5, fdq=0), 6, [(m, 0.0, Ts) for Ts in Ts4 for m in ("lat", "latfunc")], 2)
+        lat = dict(gens=(1, 3, 6, 1000), skips=(1, 2), big=(1,), shapes=((2,), ()), maxlen=4, lattice=True, warm=(0, 999))
+        c["lattice-q1"] = (dict(lat, L=4, fdq=1), 5, [(m, 0.25, Ts) for Ts in Ts4 for m in ("lat", "latfunc")], 2)
+        c["lattice-q2"] = (dict(lat, L=7, fdq=2), 5, [(m, 0.5, Ts) for Ts in Ts4 for m in ("lat", "latfunc")], 2)
+        c["lattice-q0"] = (dict(lat, L=5, fdq=0), 5, [(m, 0.0, Ts) for Ts in Ts4 for m in ("lat", "latfunc")], 2)
         c["rayleigh"] = (dict(kind="rayleigh", gens=(1, 3), skips=(2,), big=(1,), shapes=((2, 3), ()),
-                              shape0=((), (2,)), maxgens=2, gendef=True, maxlen=5), 6, [("rayleigh", 0.0, 1.0)], None)
+                              shape0=((), (2,)), maxgens=2, gendef=True, maxlen=4), 5, [("rayleigh", 0.0, 1.0)], None)
     return c
 
 
